@@ -152,6 +152,7 @@ type reporter struct {
 	counts  map[string]int
 	samples map[string]string
 	perSig  int
+	silent  bool // only count signatures (random token cases: the judge decides)
 }
 
 func newReporter(out *vh.Out) *reporter {
@@ -160,7 +161,7 @@ func newReporter(out *vh.Out) *reporter {
 
 func (r *reporter) mismatch(sig, detail string, replay interface{}) {
 	r.counts[sig]++
-	if r.counts[sig] <= r.perSig {
+	if r.counts[sig] <= r.perSig && !r.silent && r.out != nil {
 		r.out.Mismatch(sig, detail, replay)
 	}
 }
